@@ -491,10 +491,20 @@ class CryptographyEngine(api.CryptographicEngine):
                 if iv_nonce is None:
                     iv_nonce = os.urandom(algorithm.block_size // 8)
                     return_iv_nonce = True
-                if is_gcm_mode:
-                    mode = mode(iv_nonce, None, min_tag_length=auth_tag_length)
-                else:
-                    mode = mode(iv_nonce)
+                try:
+                    if is_gcm_mode:
+                        mode = mode(
+                            iv_nonce,
+                            None,
+                            min_tag_length=auth_tag_length
+                        )
+                    else:
+                        mode = mode(iv_nonce)
+                except Exception as e:
+                    raise exceptions.InvalidField(
+                        "The IV/nonce or tag length is not valid for the "
+                        "cipher mode: {0}".format(e)
+                    )
             else:
                 mode = mode()
 
@@ -510,11 +520,21 @@ class CryptographyEngine(api.CryptographicEngine):
             )
 
         # Encrypt the plain text
-        cipher = ciphers.Cipher(algorithm, mode, backend=default_backend())
-        encryptor = cipher.encryptor()
-        if auth_additional_data is not None:
-            encryptor.authenticate_additional_data(auth_additional_data)
-        cipher_text = encryptor.update(plain_text) + encryptor.finalize()
+        try:
+            cipher = ciphers.Cipher(
+                algorithm,
+                mode,
+                backend=default_backend()
+            )
+            encryptor = cipher.encryptor()
+            if auth_additional_data is not None:
+                encryptor.authenticate_additional_data(auth_additional_data)
+            cipher_text = encryptor.update(plain_text) + encryptor.finalize()
+        except Exception as e:
+            self.logger.exception(e)
+            raise exceptions.CryptographicFailure(
+                "The encryption process failed: {0}".format(e)
+            )
 
         result = {'cipher_text': cipher_text}
         if return_iv_nonce:
